@@ -134,6 +134,30 @@ func c18objects(seed int64, keys *gen.KeyRing, n int) []*c18object {
 				continue
 			}
 		}
+		if (i/42)%7 == 0 && i%7 == 4 && !decoded {
+			// header values of Go types the encoders refuse (a countersignature stored by value, a list of
+			// values, a typed map): refusing is fine, rewriting the caller's map into an accepted form is not
+			m := &cose.Sign1Message{Headers: mkHeaders(k.Alg), Payload: payload, Signature: mon.FixedSig}
+			byValue := cose.Countersignature{Headers: cose.Headers{Protected: cose.ProtectedHeader{int64(1): cose.AlgorithmES256}, Unprotected: cose.UnprotectedHeader{}}, Signature: []byte{1, 2, 3}}
+			switch (i / 7) % 3 {
+			case 0:
+				m.Headers.Unprotected[int64(7)] = byValue
+			case 1:
+				m.Headers.Unprotected[int64(11)] = []cose.Countersignature{byValue}
+			default:
+				m.Headers.Unprotected[int64(15)] = map[string]any{"iss": "x"}
+			}
+			o := &c18object{name: fmt.Sprintf("sign1-refusable-header-value-%d", i), kind: "sign1-refusable-header-value", alg: k.Name}
+			o.state = func() []any { return []any{m, k.Verifier} }
+			o.ops = []c18op{
+				{"MarshalCBOR", func() string { return resBytes(m.MarshalCBOR()) }},
+				{"Verify", func() string { return resErr(m.Verify(nil, k.Verifier)) }},
+				{"Untagged.MarshalCBOR", func() string { return resBytes((*cose.UntaggedSign1Message)(m).MarshalCBOR()) }},
+				{"Headers.MarshalUnprotected", func() string { return resBytes(m.Headers.MarshalUnprotected()) }},
+			}
+			out = append(out, o)
+			continue
+		}
 		if (i/42)%7 == 0 && (i%7 == 6 || i%7 == 2) && !decoded {
 			// a message assembled from raw header bytes only (as read from a store or another parser): the
 			// parsed maps are nil, the bytes carry the algorithm; validly signed by the reference signer
